@@ -392,6 +392,16 @@ class OnnxFunction(Op, Generic[_P, _R]):
 
         # Duplicate the graph to create the model
         main_graph = self.function_ir.graph.clone()
+        # A model's main graph has no attribute parameters: replace every reference to an
+        # attribute of the function by the attribute's default value (to_model_proto has
+        # already refused functions with attributes that have no default).
+        defaults = {attr.name: attr for attr in self.function_ir.attrs}
+        if defaults:
+            for node in ir.traversal.RecursiveGraphIterator(main_graph):
+                for attr_name, attr in list(node.attributes.items()):
+                    if attr.is_ref() and attr.ref_attr_name in defaults:
+                        default = defaults[attr.ref_attr_name]
+                        node.attributes[attr_name] = ir.Attr(attr_name, default.type, default.value)
         # Determine opset imports
         opset_imports = main_graph.opset_imports.copy()
 
